@@ -108,4 +108,34 @@ def run_case(case):
         else:
             res["counters"]["ref_plugin_" + pst.split(":")[0]] = 1
     res["nontrivial"] = bool(sum(1 for v in per_asset.values() if abs(v) > 1e-9) >= 2)
+    # (c) the same identities for a robust optimisation (maximal worst case over cost samples): the reported value is
+    #     the value of the returned dispatch under the portfolio's own costs, whatever the spelling of the target
+    if scn.get("mode", "mono") == "mono" and case.get("cost", 0) <= 1:
+        try:
+            import eaopack as eao
+            pf, tg, prices = impl.build(scn)
+            op = pf.setup_optim_problem(prices, tg)
+            samples = []
+            for f in (lambda v: v[::-1].copy(), lambda v: 1.5 * v + 1.0):
+                samples.append({k: (f(v) if k in ("p", "q", "ec") else v) for k, v in prices.items()})
+            csamp = pf.create_cost_samples(samples, tg)
+            spell = ["robust", "Robust", "ROBUST"][int(case["key"][:4], 16) % 3]
+            rr = op.optimize(target=spell, samples=csamp, solver="SCIPY")
+            if not isinstance(rr, str):
+                xr = np.asarray(rr.x, float)
+                own = float(-(np.asarray(op.c, float) * xr).sum())
+                outr = eao.io.extract_output(pf, op, rr, prices)
+                totr = float(np.nansum(outr["DCF"].values))
+                svalr = float(outr["summary"].loc["value", "Values"])
+                res["counters"]["robust_checked"] = 1
+                if not close(float(rr.value), own, rel=1e-6, abs_=1e-6):
+                    V.append(viol("c04.robust_value_cx", "robust optimisation (target=%r): Results.value %.8f vs -c.x %.8f under the portfolio's own costs"
+                                  % (spell, rr.value, own), tags + ["robust"], ["robust", "cx"]))
+                if not close(float(rr.value), totr, rel=1e-6, abs_=1e-6) or not close(svalr, totr, rel=1e-6, abs_=1e-6):
+                    V.append(viol("c04.robust_total", "robust optimisation (target=%r): Results.value %.8f, summary value %.8f, sum of the DCF table %.8f"
+                                  % (spell, rr.value, svalr, totr), tags + ["robust"], ["robust", "total"]))
+            else:
+                res["counters"]["robust_" + rr.replace(" ", "_")] = 1
+        except Exception as e:
+            res["counters"]["robust_error"] = 1
     return res
